@@ -29,7 +29,8 @@ RULE = ("audit histories: simulated election x 2-5 rounds of non-decreasing size
 REQUIRED = ["histories", "rounds:redraw", "rounds:continue", "append_checked", "monotone_checked", "continue_equals_redraw_checked",
             "round_adds_card_before_already_selected", "round_without_change", "contest_full_hand_count", "style_on", "style_off",
             "p_decreased", "proved_carried_over", "fine_grained_histories", "histories_after_a_dry_run",
-            "confirmed_earlier_and_risk_now_above_limit", "histories_starting_with_construction_time_bounds_in_the_tests"]
+            "confirmed_earlier_and_risk_now_above_limit", "histories_starting_with_construction_time_bounds_in_the_tests",
+            "histories_through_the_point_where_the_clean_total_equals_N_t"]
 ASSUMPTIONS = ["the 'measured risk is non-increasing' clause is asserted for tests configured with random_order=True (the "
                "factories' setting); for random_order=False the overall value is the last history entry, so only the "
                "append clause and the kept confirmation are asserted there", "polling is only generated without style (the library gives it the whole sample); without style the sample "
@@ -97,11 +98,45 @@ def run_shard(spec, rec):
             else:
                 con.update(test="alpha_mart", estim="shrink_trunc", bet=None, test_kwargs={"d": 10, "f": rng.choice((0.25, 1.0)), "c": 0.125, "eta": rng.choice((0.5625, 0.625, 0.75))})  # eta from a reported margin (the default, u(1-eps), makes the first estimates insensitive to f)
             es["_fine"] = rng.randint(6, 12)
+        if i % 20 == 19:
+            es = tie_point_spec(rng)
         es["_rseed"] = rng.randrange(10 ** 9)
         es["_dry_run"] = rng.random() < 0.3
         es["_fixed_order_tests"] = rng.random() < 0.15
         es["_margins_not_via_cvrs"] = rng.random() < 0.25
         run_case(es, rec)
+
+
+def tie_point_spec(rng):
+    """A two-candidate comparison audit taken to a (nearly) full hand count.  All cards but the last d = (W-L)/2 in sample
+    order are read exactly as their CVRs say; the last d, CVR for the winner, are found to be for the loser.  After
+    n = N - d clean cards the observed total of the (non-dyadic) overstatement-assorter values equals N t exactly in
+    real arithmetic: the remaining cards could still make it a tie.  Rounds: a small sample, n, N.  Any disagreement
+    between the ways a running total is rounded shows up as a certainty (p = 0) that is withdrawn in the next round."""
+    N = rng.choice((20, 40, 80, 120))
+    d = rng.choice((1, 1, 2, 3))
+    es = E.gen_spec(rng, n_contests=1, n_cards=N, kinds=("plurality",), style=False, audit_types=("CARD_COMPARISON",),
+                    error_rate=0, phantom_rate=0, allow_wrong=False)
+    con = es["contests"]["con1"]
+    w, l = con["candidates"][0], con["candidates"][1]
+    con.update(winner=[w], n_winners=1, cards=N)
+    es["max_cards"] = N
+    es["audit_max_cards"] = None
+    W = N // 2 + d
+    votes = [{w: 1}] * (W - d) + [{l: 1}] * (N - W)
+    rng.shuffle(votes)
+    votes = votes + [{w: 1}] * d
+    for cd, v in zip(es["cards"], votes):
+        cd["votes"] = {"con1": dict(v)}
+        cd["pool"] = False
+    es["mvrs"] = {str(N - 1 - j): {"kind": "votes", "votes": {"con1": {l: 1}}} for j in range(d)}
+    es["sample_nums"] = {"kind": "explicit", "nums": None}
+    es["sn_mode"], es["sn_step"] = "list_order", 1
+    es.pop("sn_base", None)
+    n1 = rng.randint(2, N // 2)
+    es["_rounds"] = [{"con1": n1}, {"con1": N - d}, {"con1": N}]
+    es["_tie_point"] = True
+    return es
 
 
 def run_variant(es, rounds, variant, rec):
@@ -188,6 +223,8 @@ def run_case(es, rec):
     es["_rounds"] = rounds
     nums = [c.sample_num for c in sim0.cvr_list]
     rec.count("histories")
+    if es.get("_tie_point"):
+        rec.count("histories_through_the_point_where_the_clean_total_equals_N_t")
     rec.count("style_on" if sim0.use_style else "style_off")
     results = {}
     for variant in ("redraw", "continue"):
